@@ -756,6 +756,18 @@ int cmd_run(Options const& opt)
             exit_code = 2;
             continue;
         }
+        if (!repro && c.v.klass == "hang" && a.ok && b.ok)
+        {
+            // The wall-clock limit of a run is the one thing the simulator does
+            // not own: a plan that exceeded it once but completes, twice, in
+            // fresh processes was slowed down by machine load.  Not a violation
+            // and not a harness fault; reported for the record.
+            std::cout << "note: run " << c.index
+                      << " exceeded the per-run wall-clock limit once and completed on two "
+                         "fresh re-executions (machine load); not counted\n";
+            std::remove(cand_file.c_str());
+            continue;
+        }
         if (!repro)
         {
             std::cout << "HARNESS-FAULT candidate violation did not reproduce in fresh "
